@@ -267,7 +267,8 @@ def run_units(units, jobs=None):
     if jobs <= 1 or len(units) <= 1:
         return [run_unit(u) for u in units]
     ctx = multiprocessing.get_context('fork')
-    with ctx.Pool(jobs) as pool:
+    get_interp()            # created in the parent so that every forked unit inherits it
+    with ctx.Pool(jobs, maxtasksperchild=1) as pool:        # a fresh fork per unit: no z3 / cache state carried from one unit to the next
         order = sorted(range(len(units)), key=lambda i: -getattr(units[i], 'weight', 1))
         res = pool.map(_worker, order, chunksize=1)
     out = [None] * len(units)
